@@ -1,4 +1,5 @@
 import CollectionsC.Model.Chain
+import CollectionsC.Spec.LSeq
 /-! Concrete model of `src/cc_list.c` (doubly linked list) on the `Chain` state of
 `Model/Chain.lean`: the same branches and the same assignments to `size`/`head`/`tail` in the same
 order, one `m.alloc` per `mem_calloc`, one `m.free` per `mem_free`, a `m.check` where a node
@@ -329,12 +330,58 @@ def msort (cmp : Nat → Nat → Int) : Nat → List Nat → List Nat
     let r := xs.drop (xs.length / 2)
     List.merge (msort cmp fuel l) (msort cmp fuel r) (fun a b => decide (cmp a b ≤ 0))
 
-/-- `cc_list_sort_in_place`: the nodes are relinked (no allocation); every `split` of two or more
-nodes ends with `list->head = l_head; list->tail = r_head` -/
+/-- `cc_list_sort_in_place`, specification level: the nodes are relinked (no allocation) in the
+order `msort` computes; every `split` of two or more nodes ends with
+`list->head = l_head; list->tail = r_head` -/
 def sortInPlace (cmp : Nat → Nat → Int) (l : Chain) : Chain :=
   if l.size < 2 then l else
   { l with nodes := msort cmp l.size (l.nodes.take l.size) ++ l.nodes.drop l.size,
            head := some 0, tail := some (l.size - 1) }
+
+/-- the `for` loop of `merge(left, right, l_size, r_size, cmp)`, statement by statement: `i`, `l`,
+`r` are the C counters, `lp`/`rp` the cursors `l_part`/`r_part`, `left`/`right` the in-out
+parameters `*left`/`*right`.  A right node that compares smaller is relinked in front of the left
+cursor by `link_behind` (`moveBefore`; every pointer variable keeps denoting its node).  The four
+`break`s of the C loop are the four places where the recursion stops. -/
+def mergeLoop (cmp : Nat → Nat → Int) (lSize rSize : Nat) :
+    Nat → Nat → Nat → Nat → Ptr → Ptr → Chain → Ptr → Ptr → Chain × Ptr × Ptr
+  | 0, _, _, _, _, _, ch, left, right => (ch, left, right)
+  | fuel + 1, i, lc, rc, lp, rp, ch, left, right =>
+    let n := ch.nodes.length
+    let size := rSize + lSize
+    if cmp (ch.data lp) (ch.data rp) ≤ 0 then
+      if i = 0 ∧ size = 2 then (ch, left, right)
+      else if lc = lSize then (ch, left, Chain.walkNext n rp (rSize - 1 - rc))
+      else mergeLoop cmp lSize rSize fuel (i + 1) (lc + 1) rc (lp.next n) rp ch left right
+    else
+      let tmp := rp.next n
+      let a := rp.pos
+      let b := lp.pos
+      let ch' := ch.moveBefore a b                       -- link_behind(l_part, r_part)
+      let lp' := lp.movePtr a b
+      let rp' := rp.movePtr a b
+      if i = 0 ∧ size = 2 then (ch', rp', lp')           -- *right = l_part; *left = r_part
+      else if rc + 1 = rSize then (ch', left.movePtr a b, Chain.walkNext n lp' (lSize - 1 - lc))
+      else mergeLoop cmp lSize rSize fuel (i + 1) lc (rc + 1) lp' (tmp.movePtr a b) ch'
+             (if i = 0 then rp' else left.movePtr a b) (right.movePtr a b)
+
+/-- `split(list, b, size, cmp)`: sorts the `size` nodes starting at `b`, returns the new first node.
+The recursive calls relink only nodes of their own run, so `center` and `l_head` keep their
+positions across them. -/
+def splitC (cmp : Nat → Nat → Int) : Nat → Chain → Ptr → Nat → Chain × Ptr
+  | 0, ch, b, _ => (ch, b)
+  | fuel + 1, ch, b, size =>
+    if size < 2 then (ch, b) else
+    let lSize := size / 2
+    let rSize := size / 2 + size % 2
+    let center := Chain.walkNext ch.nodes.length b lSize
+    let r1 := splitC cmp fuel ch b lSize
+    let r2 := splitC cmp fuel r1.1 center rSize
+    let mg := mergeLoop cmp lSize rSize (rSize + lSize) 0 0 0 r1.2 r2.2 r2.1 r1.2 r2.2
+    ({ mg.1 with head := mg.2.1, tail := mg.2.2 }, mg.2.1)
+
+/-- `cc_list_sort_in_place`, code level -/
+def sortInPlaceC (cmp : Nat → Nat → Int) (l : Chain) : Chain := (splitC cmp l.size l l.head l.size).1
 
 /-- `cc_list_foreach`: the arguments the callback receives -/
 def foreach (l : Chain) : List Nat := l.forward
@@ -497,5 +544,47 @@ def zipReplace (l1 l2 : Chain) (z : ZipIter) (x1 x2 : Nat) (m : Mem) : Stat × O
 
 /-- `cc_list_zip_iter_index` -/
 def zipIndex (z : ZipIter) : Nat := wdec z.index
+
+end CC.DList
+
+namespace CC.DList
+open CC.Spec.LSeq (Op Out Params)
+
+/-- one history step on the pair (destination, source); `to_array` hands its block to the caller,
+who releases it at once (as the harness does) -/
+def step (P : Params) (s : Chain × Chain) (op : Op) (m : Mem) : Out × (Chain × Chain) × Mem :=
+  match op with
+  | .addFirst x => let r := addFirst s.1 x m; ({ st := some r.1 }, (r.2.1, s.2), r.2.2)
+  | .addLast x => let r := addLast s.1 x m; ({ st := some r.1 }, (r.2.1, s.2), r.2.2)
+  | .addAt x i => let r := addAt s.1 x i m; ({ st := some r.1 }, (r.2.1, s.2), r.2.2)
+  | .addAll => let r := addAll s.1 s.2 m; ({ st := some r.1 }, (r.2.1, s.2), r.2.2)
+  | .addAllAt i => let r := addAllAt s.1 s.2 i m; ({ st := some r.1 }, (r.2.1, s.2), r.2.2)
+  | .splice => let r := splice s.1 s.2 m; ({ st := some r.1 }, (r.2.1, r.2.2.1), r.2.2.2)
+  | .spliceAt i => let r := spliceAt s.1 s.2 i m; ({ st := some r.1 }, (r.2.1, r.2.2.1), r.2.2.2)
+  | .remove x => let r := remove s.1 x m; ({ st := some r.1, val := r.2.1 }, (r.2.2.1, s.2), r.2.2.2)
+  | .removeAt i => let r := removeAt s.1 i m; ({ st := some r.1, val := r.2.1 }, (r.2.2.1, s.2), r.2.2.2)
+  | .removeFirst => let r := removeFirst s.1 m; ({ st := some r.1, val := r.2.1 }, (r.2.2.1, s.2), r.2.2.2)
+  | .removeLast => let r := removeLast s.1 m; ({ st := some r.1, val := r.2.1 }, (r.2.2.1, s.2), r.2.2.2)
+  | .removeAll => let r := removeAll s.1 m; ({ st := some r.1, vals := r.2.1 }, (r.2.2.1, s.2), r.2.2.2)
+  | .replaceAt x i => let r := replaceAt s.1 x i m; ({ st := some r.1, val := r.2.1 }, (r.2.2.1, s.2), r.2.2.2)
+  | .reverse => let r := reverse s.1 m; ({}, (r.1, s.2), r.2)
+  | .filterMut => let r := filterMut P.pred s.1 m; ({ st := some r.1 }, (r.2.1, s.2), r.2.2)
+  | .getFirst => let r := getFirst s.1 m; ({ st := some r.1, val := r.2.1 }, s, r.2.2)
+  | .getLast => let r := getLast s.1 m; ({ st := some r.1, val := r.2.1 }, s, r.2.2)
+  | .getAt i => let r := getAt s.1 i m; ({ st := some r.1, val := r.2.1 }, s, r.2.2)
+  | .indexOf x => let r := indexOf P.cmp s.1 x; ({ st := some r.1, val := r.2 }, s, m)
+  | .contains x => ({ val := some (contains s.1 x) }, s, m)
+  | .containsValue x => ({ val := some (containsValue P.cmp s.1 x) }, s, m)
+  | .size => ({ val := some s.1.size }, s, m)
+  | .toArray =>
+    let r := toArray s.1 m
+    ({ st := some r.1, vals := r.2.1.getD [] }, s, if r.1 = .ok then r.2.2.free else r.2.2)
+  | .foreach => ({ vals := foreach s.1 }, s, m)
+  | .swapRoles => ({}, (s.2, s.1), m)
+
+def run (P : Params) (s : Chain × Chain) (ops : List Op) (m : Mem) : List Out × (Chain × Chain) × Mem :=
+  match ops with
+  | [] => ([], s, m)
+  | op :: ops => let r := step P s op m; let rs := run P r.2.1 ops r.2.2; (r.1 :: rs.1, rs.2.1, rs.2.2)
 
 end CC.DList
